@@ -1741,8 +1741,11 @@ class Interp:
         if isinstance(cont, (tuple, list)):
             items = list(cont)
         elif isinstance(cont, (ListV, SetV)):
+            if isinstance(cont, SetV):
+                self.hashable(item, node)  # membership in a set hashes the item (TypeError for an unhashable one)
             items = cont.items
         elif isinstance(cont, DictV):
+            self.hashable(item, node)
             if isinstance(item, (str, int, frozenset, tuple)) and item in cont.items:
                 return True
             items = list(cont.items.keys())
